@@ -84,12 +84,26 @@ package manifest
 //@   at send#2: assert blockPos + uint64(fseg.Offset) + uint64(fseg.Len) == min(wantPos + wantLen, blockEnd)
 //@   at send#2: assert fseg.Locator == s.Blocks[i]
 
+// segment: a file token is expanded into segments unless the same path (stream
+// name and token name, i.e. directory part included) was already expanded for
+// this manifest line - tokens that merely share a base name are different
+// files - and the segments come from the iterator of exactly that path.
+//@ func Manifest.segment property C10,C17 safety -bounds,-nil
+//@   calls ManifestStream.FileSegmentIterByName#1: requires $0 == path
+//@   at loop 2 back: assert currentStreamfiles[path]
+//@   at assign path#1: assert path == ite(strings.HasSuffix(stream.StreamName, "/"), stream.StreamName[0:len(stream.StreamName)-1], stream.StreamName) + "/" + f.Name
+
 // Extract of a directory: a stream is included only if it is the source path
 // itself or lies below it (path-component boundary), and it is renamed by
 // replacing exactly the source prefix.
 //@ func segmentedManifest.manifestTextForPath property C10,C17 safety -bounds
 //@   calls segmentedStream.normalizedText#2: requires k == srcpath || strings.HasPrefix(k, srcpath + "/")
 //@   calls segmentedStream.normalizedText#2: requires $0 == relocate + k[len(srcpath):]
+//@   # a path that names a file of the collection - an empty file (no segments)
+//@   # included - is extracted as that single file; the many-streams form is
+//@   # used only when there is no such file
+//@   at assign prefix#1: assert !(has(m, streamname) && has(m[streamname], filename))
+//@   calls segmentedStream.normalizedText#1: requires has(m, streamname) && has(m[streamname], filename) && $0 == relocateStream
 
 // fixStreamName: the canonical form of a stream name is "." or begins with
 // "./" (names whose first component starts with a dot included), so that it
